@@ -26,6 +26,7 @@ type ShimHooks struct {
 	// accepts; AtomicThreads, if set, restricts atomic scheduling points to those threads.
 	LockFilter    func(m interface{}) bool
 	AtomicThreads map[int]bool
+	waiting       map[int]interface{} // thread -> lock it is parked at
 	// OnReadSection is called when a read lock has been granted (enter=true) and right before it is
 	// released (enter=false).
 	OnReadSection func(tid int, m interface{}, enter bool)
@@ -79,12 +80,17 @@ func (h *ShimHooks) Acquire(m interface{}, write bool) {
 	if write {
 		kind = "w"
 	}
+	if h.waiting == nil {
+		h.waiting = map[int]interface{}{}
+	}
+	h.waiting[tid] = m
 	h.S.Point("lock-"+kind+h.name(m), func() bool {
 		if write {
 			return l.writer == -1 && len(l.readers) == 0
 		}
 		return l.writer == -1
 	})
+	delete(h.waiting, tid)
 	if h.S.Poisoned() {
 		return
 	}
@@ -150,4 +156,37 @@ func (h *ShimHooks) PoolPut(p *vsync.Pool, x interface{}) bool {
 	h.S.Point("pool-put"+h.name(p), nil)
 	h.pools[p] = append(h.pools[p], x)
 	return true
+}
+
+// Contended reports whether thread tid, inside a critical section, could be running concurrently
+// with another thread's critical section if both were free-running: another thread is inside a
+// section under a different lock (or under the same lock with one of the two writing), or is
+// about to take a different lock than the one tid holds. With one lock taken in the right modes
+// this is never the case, and the accesses inside sections need no scheduling points.
+func (h *ShimHooks) Contended(tid int) bool {
+	var mine interface{}
+	mineWrite := false
+	for m, l := range h.locks {
+		if l.writer == tid {
+			mine, mineWrite = m, true
+		} else if l.readers[tid] > 0 {
+			mine = m
+		}
+	}
+	for m, l := range h.locks {
+		if l.writer >= 0 && l.writer != tid {
+			return true
+		}
+		for r := range l.readers {
+			if r != tid && (m != mine || mineWrite) {
+				return true
+			}
+		}
+	}
+	for t, m := range h.waiting {
+		if t != tid && m != mine {
+			return true
+		}
+	}
+	return false
 }
